@@ -10,59 +10,71 @@ from collections.abc import Mapping
 from typing import Any
 
 from vf import gen_bp, gen_misc, oracle_bp
+from vf import fuzz
 from vf.core import Ctx, HarnessError, require, sut
 
-META = {
-    "rule": "objects: bin-packing instances of all 9 gen_bp size classes "
-            "(multi-digit, repeated rows, storage-type edges, 10^12 bins) "
-            "with names from the sanitised alphabet -> to_compact_str / "
-            "from_compact_str and InstanceSpace.to_str / from_str; feasible "
-            "packings (outputs of both decoders, shuffled guillotine layouts "
-            "with bins up to 1500) -> PackingSpace.to_str / from_str; game "
-            "plans of 16 shipped TTP instances (4..40 teams) with arbitrary "
-            "values in -n..n -> str(plan) / GamePlanSpace.to_str / from_str; "
-            "orderings of generated order1d instances -> OrderingSpace.to_str "
-            "/ from_str. Tables: 1..12 PackingResult records built from "
-            "synthetic EndResults over real packings of 1..3 generated "
-            "instances, 1..2 algorithms, 1..3 of the seven objectives as the "
-            "optimised one, encoding None/name, goal / max FEs / max time "
-            "absent, present or mixed (per record / per group), seeds up to "
-            "2^64-1 -> to_csv / from_csv; statistics via from_packing_results "
-            "-> to_csv -> from_csv. Non-trivial: an instance with a "
-            "multiplicity > 1 and a multi-digit dimension; a packing with "
-            ">= 2 bins; a plan with home, away and bye entries; a non-"
-            "identity ordering; a table with >= 2 different optimised "
-            "objectives and mixed presence of at least one optional column",
-    "assumptions": [
-        "objects are compared field by field with an explicit comparer "
-        "(array contents, dtype, all attributes; dataclass records "
-        "recursively incl. mapping keys and int/float/None types) because "
-        "the classes' own == only looks at the end-result tuple",
-        "the log text of a packing is PackingSpace.to_str (one line); "
-        "Packing.__str__ (one row per line) is not parseable by from_str "
-        "and is not part of the pair under test",
-        "F10 (open, rooted in moptipy 0.9.136): statistics tables in which "
-        "some groups have a goal value and others do not are excluded from "
-        "the statistics sub-check while the finding is active, and counted",
-        "F15 (open, rooted in moptipy 0.9.136): statistics tables in which "
-        "some group has one and the same time budget in all its runs are "
-        "excluded from the full comparison while the finding is active (and "
-        "counted); all their other attributes are still compared"],
-    "shards": [4, 16],
-    "technique": "property-based testing: Hypothesis-generated instances, "
-                 "packings, game plans, orderings and heterogeneous record "
-                 "tables, written and parsed back, compared with an explicit "
-                 "field-wise comparer",
-    "level_text": "Generated-input search over all text forms: thousands of "
-                  "objects and hundreds (thorough: thousands) of "
-                  "heterogeneous result / statistics tables per run; every "
-                  "attribute, mapping key and numeric type is compared. "
-                  "Shows absence of violations only on what was generated.",
-    "level_note": "Trusted: the comparer in vf/props/c19.py, Hypothesis. "
-                  "Known open finding F10 (dependency moptipy 0.9.136) is "
-                  "reproduced and its input class excluded from the "
-                  "statistics sub-check.",
-}
+META = {'rule': 'objects: bin-packing instances of all 9 gen_bp size classes '
+         '(multi-digit, repeated rows, storage-type edges, 10^12 bins) with '
+         'names from the sanitised alphabet -> to_compact_str / '
+         'from_compact_str and InstanceSpace.to_str / from_str; feasible '
+         'packings (outputs of both decoders, shuffled guillotine layouts '
+         'with bins up to 1500) -> PackingSpace.to_str / from_str; game '
+         'plans of 16 shipped TTP instances (4..40 teams) with arbitrary '
+         'values in -n..n -> str(plan) / GamePlanSpace.to_str / from_str; '
+         'orderings of generated order1d instances -> OrderingSpace.to_str / '
+         'from_str. Tables: 1..12 PackingResult records built from synthetic '
+         'EndResults over real packings of 1..3 generated instances, 1..2 '
+         'algorithms, 1..3 of the seven objectives as the optimised one, '
+         'encoding None/name, goal / max FEs / max time absent, present or '
+         'mixed (per record / per group), seeds up to 2^64-1 -> to_csv / '
+         'from_csv; statistics via from_packing_results -> to_csv -> '
+         'from_csv. Non-trivial: an instance with a multiplicity > 1 and a '
+         'multi-digit dimension; a packing with >= 2 bins; a plan with home, '
+         'away and bye entries; a non-identity ordering; a table with >= 2 '
+         'different optimised objectives and mixed presence of at least one '
+         "optional column Additionally 'fuzz_compact' and 'fuzz_plan': "
+         'coverage-guided fuzzing (atheris/libFuzzer) of '
+         'Instance.from_compact_str and GamePlanSpace.from_str: every '
+         'accepted text must round-trip (all attributes) and have consistent '
+         'derived attributes / lie inside the space; non-trivial fuzz inputs '
+         '= distinct accepted texts.',
+ 'assumptions': ['objects are compared field by field with an explicit '
+                 'comparer (array contents, dtype, all attributes; dataclass '
+                 'records recursively incl. mapping keys and int/float/None '
+                 "types) because the classes' own == only looks at the "
+                 'end-result tuple',
+                 'the log text of a packing is PackingSpace.to_str (one '
+                 'line); Packing.__str__ (one row per line) is not parseable '
+                 'by from_str and is not part of the pair under test',
+                 'F10 (open, rooted in moptipy 0.9.136): statistics tables '
+                 'in which some groups have a goal value and others do not '
+                 'are excluded from the statistics sub-check while the '
+                 'finding is active, and counted',
+                 'F15 (open, rooted in moptipy 0.9.136): statistics tables '
+                 'in which some group has one and the same time budget in '
+                 'all its runs are excluded from the full comparison while '
+                 'the finding is active (and counted); all their other '
+                 'attributes are still compared',
+                 'fuzz targets: inputs the independent oracle cannot '
+                 'interpret and exceptions other than the documented '
+                 "rejection are counted, not reported; libFuzzer's -seed "
+                 'pins a campaign only approximately, the saved input is the '
+                 'reproducible unit'],
+ 'shards': [4, 16],
+ 'technique': 'property-based testing: Hypothesis-generated instances, '
+              'packings, game plans, orderings and heterogeneous record '
+              'tables, written and parsed back, compared with an explicit '
+              'field-wise comparer + coverage-guided fuzzing (atheris) of '
+              'the compact-string and game-plan parsers with round-trip '
+              'oracles',
+ 'level_text': 'Generated-input search over all text forms: thousands of '
+               'objects and hundreds (thorough: thousands) of heterogeneous '
+               'result / statistics tables per run; every attribute, mapping '
+               'key and numeric type is compared. Shows absence of '
+               'violations only on what was generated.',
+ 'level_note': 'Trusted: the comparer in vf/props/c19.py, Hypothesis. Known '
+               'open finding F10 (dependency moptipy 0.9.136) is reproduced '
+               'and its input class excluded from the statistics sub-check.'}
 
 
 # ----------------------------------------------------------------------------
@@ -469,6 +481,8 @@ SUBS = {"instance": check_instance, "packing": check_packing,
         "plan": check_plan, "ordering": check_ordering,
         "results_table": check_results_table,
         "stats_table": check_stats_table}
+SUBS["fuzz_compact"] = fuzz.make_sub("compact")
+SUBS["fuzz_plan"] = fuzz.make_sub("plan")
 
 
 def run(ctx: Ctx) -> None:
@@ -499,3 +513,7 @@ def run(ctx: Ctx) -> None:
             else ("distinct", "per_record", "all", "none"))
     ctx.given("stats_table", tables, check_stats_table,
               quick=400, thorough=16 * 400)
+    fuzz.run_target(ctx, "compact", quick_runs=50_000,
+                    thorough_runs=16 * 400_000)
+    fuzz.run_target(ctx, "plan", quick_runs=120_000,
+                    thorough_runs=16 * 1_000_000)
